@@ -79,6 +79,10 @@ int cmd_worker(const std::map<std::string, std::string>& a) {
   int want_samples = atoi(get("samples", "0").c_str());
   bool digests = a.count("digests") != 0;
   g_cold_start = a.count("cold") != 0;
+  if (a.count("refs")) {   // C14 part "order": fingerprints of zones taken in processes of their own
+    std::string text; J rj;
+    if (read_file(a.at("refs"), &text) && J::parse(text, &rj)) for (auto& kv : rj.o) g_c14_refs[kv.first] = kv.second.s;
+  }
   common_init(prop.c_str());
   rt.seed = seed;
   Stats stats;
@@ -325,6 +329,20 @@ int main(int argc, char** argv) {
     } else bytes = base_bytes(pos[0]);
     FILE* f = fopen(pos.size() > 1 ? pos[1].c_str() : "/dev/stdout", "wb");
     fwrite(bytes.data(), 1, bytes.size(), f); fclose(f);
+    return 0;
+  }
+  if (cmd == "dump-bases") {   // every base recipe the C14 "order" part can draw
+    for (const std::string& n : shipped_names()) printf("shipped:%s\n", n.c_str());
+    for (int i = 0; i < 200; ++i) printf("synth:%d\n", i);
+    return 0;
+  }
+  if (cmd == "fingerprint") {
+    // simzone fingerprint --base <recipe>: load that one zone in this otherwise untouched process and describe it
+    common_init("C14");
+    J j = J::obj();
+    j.set("base", a.count("base") ? a.at("base") : std::string());
+    j.set("fingerprint", fingerprint_of_base_alone(a.count("base") ? a.at("base") : std::string()));
+    emit(j);
     return 0;
   }
   if (cmd == "count") {
